@@ -127,6 +127,8 @@ def install(reg):
         ensures=[
             ("class", "implies(isinstance(ubxClass, bytes), self._ubxClass == ubxClass)"),
             ("id", "implies(isinstance(ubxClass, bytes), self._ubxID == ubxID)"),
+            ("class-from-name", "implies(isinstance(ubxClass, str), self._ubxClass == msgname_spec(ubxClass, ubxID)[0])"),
+            ("id-from-name", "implies(isinstance(ubxClass, str), self._ubxID == msgname_spec(ubxClass, ubxID)[1])"),
             ("mode", "self._mode == msgmode"),
             ("payload-kept", "implies('payload' in kwargs, self._payload == kwargs['payload'])"),
             ("payload-none", "implies(len(kwargs) == 0, self._payload is None)"),
@@ -210,3 +212,43 @@ def c15_set_attribute_single(arg):
         modifies=["self._payload", "self.x"])
     c.registry_setup = setup_registry
     return c
+
+
+# --------------------------------------------------------------------------------------------------------------
+# configuration database helpers (C14)
+# --------------------------------------------------------------------------------------------------------------
+def symseq(form, with_values):
+    def build(ex, name):
+        from pvc.configdb import SymSeq
+        return SymSeq(ex.st, name, form, with_values)
+
+    return build
+
+
+CFG_LOOP_KINDS = {"att": "unbound", "key": "unbound", "val": "unbound", "kid": "unbound", "keyb": "unbound",
+                  "valb": "unbound", "cfgItem": "unbound", "_": "unbound"}
+
+
+def c14_config(arg):
+    """config_set / config_del / config_poll over a symbolic item list of `form` keys"""
+    fn, form = arg
+    withv = fn == "config_set"
+    seqparam = "cfgData" if withv else "keys"
+    if fn == "config_poll":
+        params = {"layer": "byte", "position": "u16", seqparam: symseq(form, withv)}
+        header = "bytes((0, layer)) + u16le_bytes(position)"
+        cid = "b'\\x8b'"
+        mode = 2
+    else:
+        params = {"layers": "byte", "transaction": "byte", seqparam: symseq(form, withv)}
+        header = "bytes((0 if transaction == 0 else 1, layers, transaction, 0))"
+        cid = "b'\\x8a'" if withv else "b'\\x8c'"
+        mode = 1
+    return Contract(
+        M + fn, params=params,
+        ensures=[("class", "result._ubxClass == b'\\x06'"), ("id", f"result._ubxID == {cid}"), ("mode", f"result._mode == {mode}"),
+                 ("payload", f"result._payload == {header} + cfg_enc({seqparam}, len({seqparam}))"),
+                 ("at-most-64", f"len({seqparam}) <= 64")],
+        raises={"UBXMessageError": None, "UBXTypeError": None},
+        modifies=[],
+        loops={1: Loop(index="k", inv=[("items-so-far", f"lis == cfg_enc({seqparam}, k)")], kinds=dict(CFG_LOOP_KINDS))})
